@@ -43,43 +43,62 @@ def variant_truth(prog, fn):
 def pass_exhaustiveness(prog, rep, R):
     """C14.f — passes over the directive tree stop only when every section is explored: `explored` is a conjunction over ALL sections
     (recursively), `pass` visits ALL sections, the nested arm picks the first unexplored branch (or the last), and PassIter stops exactly
-    on `tree.explored()`.  The traversals are checked as complete, unadapted iterations (no step_by / skip / take / filter / split)."""
+    on `tree.explored()`.  Stated on what each of the four functions does together with its closures, function items and the module's own
+    helpers: only complete, unadapted traversals (no step_by / skip / take / filter / split), and the recursion partner is reached."""
     DT = "pasfmt_core::defaults::parser::directive_tree::"
-    allowed = {"core::ops::deref::Deref::deref", "core::ops::deref::DerefMut::deref_mut", "core::slice::iter", "core::slice::iter_mut",
-               "core::iter::traits::iterator::Iterator::all", "core::iter::traits::collect::IntoIterator::into_iter", "core::iter::traits::iterator::Iterator::next",
-               "itertools::Itertools::find_or_last", "core::iter::traits::collect::Extend::extend", "core::clone::Clone::clone", "alloc::vec::Vec::new",
-               DT + "Section::explored", DT + "DirectiveTree::explored", DT + "Section::pass", DT + "DirectiveTree::pass"}
+    COMPLETE = {"deref", "deref_mut", "iter", "iter_mut", "into_iter", "next", "all", "for_each", "find_or_last", "extend", "extend_from_slice", "clone", "new", "not",
+                "call_mut", "call_once", "call", "branch", "from_residual", "into", "from", "start", "end"}
     need = {
-        DT + "DirectiveTree::explored": {"core::slice::iter", "core::iter::traits::iterator::Iterator::all"},
-        DT + "DirectiveTree::explored::{closure#0}": {DT + "Section::explored"},
-        DT + "Section::explored": {"core::slice::iter", "core::iter::traits::iterator::Iterator::all"},
-        DT + "Section::explored::{closure#0}": {DT + "DirectiveTree::explored"},
-        DT + "DirectiveTree::pass": {"core::iter::traits::collect::IntoIterator::into_iter", "core::iter::traits::iterator::Iterator::next", DT + "Section::pass"},
-        DT + "Section::pass": {"core::slice::iter_mut", "itertools::Itertools::find_or_last", DT + "DirectiveTree::pass", "core::iter::traits::collect::Extend::extend"},
-        DT + "Section::pass::{closure#0}": {DT + "DirectiveTree::explored"},
-        "<" + DT + "PassIter as core::iter::traits::iterator::Iterator>::next": {DT + "DirectiveTree::pass", DT + "DirectiveTree::explored", "alloc::vec::Vec::new"},
+        DT + "DirectiveTree::explored": ({"all"}, {DT + "Section::explored"}),
+        DT + "Section::explored": ({"all"}, {DT + "DirectiveTree::explored"}),
+        DT + "DirectiveTree::pass": (set(), {DT + "Section::pass"}),
+        DT + "Section::pass": ({"find_or_last"}, {DT + "DirectiveTree::pass", DT + "DirectiveTree::explored"}),
     }
-    for name, must in need.items():
+    from util import family_bodies
+    roots = set(need) | {"<" + DT + "PassIter as core::iter::traits::iterator::Iterator>::next"}
+    for name, (adapters, partners) in need.items():
         b = prog.body(name)
         if not rep.check(b is not None, R, "anchor:" + short(name), "%s not found" % short(name)):
             continue
-        calls = [c.callee for c in b.calls()]
-        extra = sorted(set(c for c in calls if c not in allowed and not (c or "").startswith("core::ops::function")))
-        missing = sorted(must - set(calls))
-        rep.check(not extra and not missing, R, "traversal:" + short(name), "%s no longer is a complete, unadapted traversal: unreviewed calls %s, missing %s" % (short(name), extra, missing),
-                  where="%s:%d" % (b.file, b.line), instance={"fn": short(name), "calls": sorted(set((c or "?").split("::")[-1] for c in calls))})
-    # the `for section in &mut self.sections` loop of DirectiveTree::pass leaves only on exhaustion
+        fam = [x for x, _a, _c in family_bodies(prog, b, depth=2) if x.npath == name or x.npath not in roots]
+        names, reached, extra = set(), set(), set()
+        for x in fam:
+            for c in x.calls():
+                cal = norm(c.t.get("resolved") or c.callee or "")
+                tg = {c.callee or "", cal} | {norm(a2["fn"]) for a2 in c.args if a2["k"] == "const" and a2.get("fn")}
+                for t in tg:
+                    if not t:
+                        continue
+                    nm = t.split("::")[-1]
+                    if t.startswith(DT) or t.startswith("<" + DT):
+                        reached.add(t)
+                    elif nm in COMPLETE or t.startswith("core::ops::function") or t.startswith("core::ops::range"):
+                        names.add(nm)
+                    else:
+                        extra.add(t)
+        missing = sorted((adapters - names) | {short(x) for x in partners - reached})
+        rep.check(not extra and not missing, R, "traversal:" + short(name), "%s no longer is a complete, unadapted traversal: unreviewed calls %s, missing %s" % (short(name), sorted(extra)[:3], missing),
+                  where="%s:%d" % (b.file, b.line), instance={"fn": short(name), "calls": sorted(names), "reaches": sorted(short(x) for x in reached)})
+    # DirectiveTree::pass hands every section to Section::pass: a `for` loop over the sections that leaves only on exhaustion, or for_each
     b = prog.body(DT + "DirectiveTree::pass")
     if b is not None:
         nx = [c for c in b.calls() if c.callee == "core::iter::traits::iterator::Iterator::next"]
-        ok = len(nx) == 1 and nx[0].bb in b.loops()
-        if ok:
+        fe = [c for c in b.calls() if (c.callee or "") == "core::iter::traits::iterator::Iterator::for_each"]
+        ok = False
+        if len(nx) == 1 and nx[0].bb in b.loops():
             L = b.loops()[nx[0].bb]
             rets = set(b.return_blocks())
             tgt = nx[0].t.get("target")
             exits = [(u, v) for u in L for v in b.succ[u] if v not in L and (b.reach_from(v, include_start=True) & rets)]
             ok = all(u in (nx[0].bb, tgt) or b.blocks[u]["term"]["k"] == "switch" and b.dominates(tgt, u) and not [c for c in b.calls() if c.bb in L and b.dominates(c.bb, u) and c.bb != nx[0].bb] for u, v in exits)
-        rep.check(ok, R, "pass-visits-all-sections", "DirectiveTree::pass does not visit every section on every pass", instance={"loop": "for section in &mut self.sections"})
+        elif len(fe) == 1 and not nx:
+            src = canon(b, fe[0].args[0])
+            clos = b.locals[fe[0].args[1]["place"]["l"]].get("closure") if fe[0].args[1]["k"] in ("copy", "move") else None
+            cb = prog.body(norm(clos)) if clos else None
+            # every element, and the closure calls Section::pass on every path
+            ok = re.match(r"^(iter_mut|into_iter|iter)\((deref_mut\()?(deref\()?arg1\.sections\)*$", src) is not None and cb is not None and \
+                any(norm(c.t.get("resolved") or c.callee or "") == DT + "Section::pass" and all(cb.dominates(c.bb, r) for r in cb.return_blocks()) for c in cb.calls())
+        rep.check(ok, R, "pass-visits-all-sections", "DirectiveTree::pass does not visit every section on every pass", instance={"loop": "for section in &mut self.sections / iter_mut().for_each"})
     # PassIter::next: exhausted := tree.explored()
     nb = prog.body("<" + DT + "PassIter as core::iter::traits::iterator::Iterator>::next")
     if nb is not None:
@@ -107,10 +126,23 @@ def pass_exhaustiveness(prog, rep, R):
             continue
         # where the field can be written: behind the point where the section's tokens were added to the pass
         R2 = x.reach_from(bb, include_start=True)
-        ext = [c for c in x.calls() if (c.callee or "").split("::")[-1] in ("extend", "extend_from_slice", "push", "append") and c.bb in R2]
+        ADD = ("extend", "extend_from_slice", "push", "append")
+
+        def always_adds(hb):
+            """a helper of the module on every path of which tokens are added to a vector"""
+            ext2 = {c.bb for c in hb.calls() if (c.callee or "").split("::")[-1] in ADD}
+            rets2 = set(hb.return_blocks())
+            return bool(ext2) and bool(rets2) and (0 in ext2 or not hb.can_reach_avoiding(0, rets2, ext2))
+        ext = [c for c in x.calls() if c.bb in R2 and ((c.callee or "").split("::")[-1] in ADD or
+               (lambda hb: hb is not None and hb.npath.startswith(DT) and hb.npath not in (x.npath,) and always_adds(hb))(prog.body(norm(c.t.get("resolved") or c.callee or ""))))]
         stores = [(b2, s3) for b2, _, s3 in x.stmts() if b2 in R2 and s3["k"] == "assign" and s3["dst"]["p"] and s3["dst"]["p"][-1]["k"] == "deref" and x.locals[s3["dst"]["l"]]["ty"] == "&mut bool"]
-        if not ext or any(not any(c.bb == b2 or x.dominates(c.bb, b2) for c in ext) for b2, _ in stores):
+        rets = set(x.return_blocks())
+        # from the point where the flag is taken (to be set here or in a helper it is handed to) every way out adds the section's tokens
+        leaks = not ext or (bool(rets) and x.can_reach_avoiding(bb, rets, {c.bb for c in ext}) and bb not in {c.bb for c in ext})
+        if leaks and (stores or any(c.bb in R2 and x.locals[a2["place"]["l"]]["ty"] == "&mut bool" for c in x.calls() for a2 in c.args if a2["k"] in ("copy", "move") and not a2["place"]["p"])):
             other.append("%s can set a section's `explored` where no tokens are added to a pass" % short(x.npath))
+        elif not ext:
+            other.append("%s takes a section's `explored` mutably but adds no tokens" % short(x.npath))
     rep.check(born >= 1 and not other, R, "sections-are-born-unexplored",
               "a section of the conditional-directive tree is marked as explored without its tokens having been put into a pass (%s): the pass iterator only schedules unexplored "
               "branches, so the tokens of such a branch (a branch that holds only comments ..) can be in no pass at all and end up in no logical line" % (other[:2] or "no flat section is built any more"),
